@@ -174,6 +174,20 @@ Fixpoint last_save (evs : list event) (d : pstate) : pstate :=
   | _ :: r => last_save r d
   end.
 
+(* save_state is not one step of the machine: _LeaseStateSerializer.save writes
+   the new state into a sibling ".tmp" file and then renames it over the state
+   file (fileutil.move_into_place).  FILE-SYSTEM HYPOTHESIS of this model: the
+   rename is atomic, so a process that dies (or runs out of disk space) inside
+   save_state leaves the state file with its previous content (KeptOld: it
+   died before the rename) or with the new content (GotNew: after it), never
+   with anything else.  In the event log the two outcomes are "killed before
+   the ESave event" and "killed right after it": a crash inside the save that
+   would have been event number k+1 of the slice is the kill point k or k+1. *)
+Inductive torn_save := KeptOld | GotNew.
+
+Definition crash_in_save (k : nat) (t : torn_save) : option nat :=
+  Some (match t with KeptOld => k | GotNew => S k end).
+
 Definition do_slice (dirs : list (list name)) (m : mstate) (s : slice_spec) : list event * mstate :=
   let '(evs, m') := run_slice dirs m (sl_ticks s) in
   match sl_kill s with
